@@ -889,8 +889,9 @@ class Tr:
             env2 = self.wr(env)
             env2[x] = (name, "opt")
             # the fill loop pushes on the tested local (null here) and ends with `freeItem = <local>`
+            # what follows the allocation becomes a function of its own (as after an `if`), so that its proof is separate
             return ([f"{ind}let t := if {env[x][0]}.isNone then ({{ t with freeItem := none }} : PTable).newBlockAll else t",
-                     f"{ind}let {name} := if {env[x][0]}.isNone then t.freeItem else {env[x][0]}"] + go(env2, ind))
+                     f"{ind}let {name} := if {env[x][0]}.isNone then t.freeItem else {env[x][0]}"] + self.cont(rest, env2, ind))
         if k == "allocfirst":
             x = s[1]
             if x not in env:
@@ -995,6 +996,27 @@ class Tr:
             else:
                 out.append(l)
         return out
+
+    def cont(self, rest, env, ind):
+        """`rest` as a function `…_kN` of its own (parameters: the table, the parameters of the C++ function, the locals in
+        scope that are assigned), called here"""
+        if getattr(self, "in_loop", 0):
+            return self.run(rest, env, ind)
+        self.njoins = getattr(self, "njoins", 0) + 1
+        kname = f"{self.spec['lean']}_k{self.njoins}"
+        params = [p for p, _ in self.spec["params"]]
+        locs = [x for x in env if not x.startswith("$") and x not in params]
+        passed = [x for x in locs if env[x][0] is not None]
+        kenv = {p: (p, ty) for p, ty in self.spec["params"]}
+        for x in locs:
+            kenv[x] = (f"v_{x}", env[x][1]) if env[x][0] is not None else (None, None)
+        if env.get("$data"):
+            kenv["$data"] = True
+        sig = "".join(f" ({p} : {LEAN_TY[ty]})" for p, ty in self.spec["params"])
+        sig += "".join(f" (v_{x} : {LEAN_TY[env[x][1]]})" for x in passed)
+        body = self.run(rest, kenv, "  ")
+        self.aux.append(f"@[simp] def {kname} (h : Nat → Nat) (t : PTable){self.osig()}{sig} : Option {self.ret_ty()} :=\n" + "\n".join(body) + "\n")
+        return [f"{ind}{kname} h t {self.oarg()}" + " ".join(params + [env[x][0] for x in passed])]
 
     def declares(self, s, names):
         if s[0] == "decl":
